@@ -230,6 +230,10 @@ type vp8Plan struct {
 	mbs                         []vp8MBPlan
 	emptyUnusedParts            bool
 	unbounded                   bool
+	// padPart >= 0: the non-final token partition padPart is followed by unread bytes so that its
+	// declared size is padTo (>= 0x010000: the third byte of the 24-bit size field is non-zero)
+	padPart, padTo int
+	padSeed        uint64
 }
 
 // valueLimits returns, per segment, the largest token magnitude for Y, Y2 and chroma blocks such that
@@ -357,7 +361,7 @@ func randBlock(r *RNG, first int, density int, big bool, limit int) []int {
 
 // SynVP8Plan draws a random plan.
 func SynVP8Plan(r *RNG, tier string) *vp8Plan {
-	p := &vp8Plan{probUpd: map[int]int{}}
+	p := &vp8Plan{probUpd: map[int]int{}, padPart: -1}
 	switch r.Intn(10) {
 	case 0:
 		p.w, p.h = 1+r.Intn(16), 1+r.Intn(16)
@@ -505,6 +509,21 @@ func SynVP8Plan(r *RNG, tier string) *vp8Plan {
 			m.tokens[b] = randBlock(r, 0, density, big, lim[m.segment][2])
 		}
 	}
+	// (drawn last, so that the rest of the plan does not depend on it) a padded non-final token
+	// partition: bytes after the last one the boolean decoder consumes are legal and ignored, so the
+	// declared partition size can be made to need all three bytes of its 24-bit field
+	padDen := 40
+	if tier == "thorough" {
+		padDen = 300
+	}
+	if p.log2parts > 0 && r.Chance(1, padDen) {
+		p.padPart = r.Intn(1<<uint(p.log2parts) - 1)
+		if r.Chance(1, 2) {
+			p.padPart = 0
+		}
+		p.padTo = r.Pick([]int{0x010000, 0x010001, 0x0100ff, 0x010100, 0x01e000, 0x020001, 0x018080})
+		p.padSeed = r.Next()
+	}
 	return p
 }
 
@@ -523,9 +542,13 @@ func (p *vp8Plan) desc() string {
 	if p.unbounded {
 		reg = "unbounded"
 	}
-	return fmt.Sprintf("%s %dx%d v%d seg=%s/map=%s/data=%s/abs=%s %s level=%d sharp=%d lfdelta=%s parts=%d q=%d upd=%d skip=%s bpred=%d/%d",
+	pad := ""
+	if p.padPart >= 0 {
+		pad = fmt.Sprintf(" pad=part%d:%#x", p.padPart, p.padTo)
+	}
+	return fmt.Sprintf("%s %dx%d v%d seg=%s/map=%s/data=%s/abs=%s %s level=%d sharp=%d lfdelta=%s parts=%d q=%d upd=%d skip=%s bpred=%d/%d%s",
 		reg, p.w, p.h, p.version, b2s(p.segEnabled), b2s(p.segMap), b2s(p.segData), b2s(p.segAbs), ft, p.level, p.sharp, b2s(p.lfDelta),
-		1<<uint(p.log2parts), p.q, len(p.probUpd), b2s(p.skipEnabled), b, len(p.mbs))
+		1<<uint(p.log2parts), p.q, len(p.probUpd), b2s(p.skipEnabled), b, len(p.mbs), pad)
 }
 
 // ---- writer ----
@@ -733,6 +756,12 @@ func (p *vp8Plan) Emit() []byte {
 			continue
 		}
 		partBytes = append(partBytes, pe.flush())
+	}
+	if p.padPart >= 0 && p.padPart < nparts-1 && len(partBytes[p.padPart]) < p.padTo {
+		pr := &RNG{s: p.padSeed}
+		b := append([]byte(nil), partBytes[p.padPart]...)
+		b = append(b, pr.Bytes(p.padTo-len(b))...)
+		partBytes[p.padPart] = b
 	}
 	tag := uint32(0) | uint32(p.version)<<1 | 1<<4 | uint32(len(part0))<<5
 	out := []byte{byte(tag), byte(tag >> 8), byte(tag >> 16), 0x9d, 0x01, 0x2a,
